@@ -356,6 +356,24 @@ def roundtrip(run, K, ctx, attrs, cmps, label, PacketBuffer, key_extra=''):
                       dict(w, error=repr(e)))
         return
     frame = buf.get_writable()
+    # a copy of the packet object writes the same bytes (shallow and deep)
+    if isinstance(label, int) and label % 4 == 1:
+        import copy
+        for how, fn in (('copy', copy.copy), ('deepcopy', copy.deepcopy)):
+            try:
+                twin = fn(p)
+                b2 = PacketBuffer()
+                twin.write(b2)
+                same = b2.get_writable() == frame
+                err = None
+            except Exception as e:
+                same, err = False, repr(e)
+            run.count('packet_copies_written')
+            if not same:
+                run.violation('copy/%s/%s' % (how, name), 'a %s of a packet '
+                              'object does not write the same bytes as the '
+                              'original' % how, dict(w, error=err))
+                break
     try:
         length, pos = rv.decode(frame, 0)
         pid, pos2 = rv.decode(frame, pos)
